@@ -1,5 +1,253 @@
-From Coq Require Import ZArith Bool List.
-From PV Require Import Base.Num Base.FVal Base.Tape Model.Operators Model.RealOps Proofs.OperatorsProofs Proofs.RealOpsProofs.
+(* C06 — variation operators return valid offspring and never modify their parents.
+   Only statements; every proof is [exact lemma].  All theorems hold for EVERY tape, i.e. for
+   every outcome of the random stream (incl. the extreme draws of each primitive) and — for
+   the real-valued operators — for every value (any float, +-inf, NaN) the unmodelled float
+   arithmetic may hand to `clip`.
+
+   "Parents unchanged": structural in a functional model (no theorem can say more); the fact
+   about the Python code is the frame-check obligation (harness/translate/framecheck.py) plus
+   the driver's deep snapshots of every parent before/after every call.
+
+   Reading guide:  valid_sol ts s  = every variable of s is valid for its declared type
+   (real inside its bounds and not NaN, bit string of the declared length, permutation of
+   exactly the declared elements, duplicate-free subset of the declared size within the
+   declared elements);  copied_from c p = c carries p's payload (objectives, ...) and, if c is
+   still marked evaluated, c is field-equal to p;  py_safe r = the run ends in offspring or
+   only because the tape was exhausted/ill-typed — never in a Python exception. *)
+From Coq Require Import ZArith QArith Bool List Permutation.
+From PV Require Import Base.Num Base.FVal Base.Tape Model.Operators Model.RealOps
+     Proofs.OperatorsProofs Proofs.RealOpsProofs.
+Import ListNotations.
+
+(* ------------------------------------------------------------------ clip *)
 Theorem c06_clip_range : forall (v : fval) (lb ub : xq), xleb lb ub = true ->
   exists r, clip v (FX lb) (FX ub) = FX r /\ xleb lb r = true /\ xleb r ub = true.
 Proof. exact clip_range_x. Qed.
+
+Theorem c06_clip_not_nan : forall v lb ub, is_nan (clip v (FX lb) (FX ub)) = false.
+Proof. exact clip_not_nan. Qed.
+
+Theorem c06_clip_finite : forall v lb ub, xleb lb ub = true -> xfinite lb = true -> xfinite ub = true ->
+  exists q, clip v (FX lb) (FX ub) = FX (Fin q).
+Proof. exact clip_finite. Qed.
+
+(* min(max(v,lb),ub) — the other argument order — lets a NaN candidate through *)
+Theorem c06_clip_reordered_keeps_nan : forall lb ub, clip_reordered FNaN (FX lb) (FX ub) = FNaN.
+Proof. exact clip_reordered_nan. Qed.
+
+Section C06.
+  Variable E : Type.
+  Variable P : Type.
+  Variable eqb : E -> E -> bool.
+  Hypothesis eqb_spec : forall x y, eqb x y = true <-> x = y.
+
+  Notation sol := (sol E P).
+  Notation wf := (wf_type E).
+  Notation valid_sol := (valid_sol E P).
+  Notation copied_from := (copied_from E P).
+  Notation two_children_ok := (two_children_ok E P).
+
+  (* ---------------------------------------------------------------- discrete operators *)
+  Theorem c06_bitflip_valid : forall pr ts fresh p t c f t',
+    Forall wf ts -> valid_sol ts p -> bitflip E P pr ts fresh p t = Ok (c, f, t') ->
+    valid_sol ts c /\ copied_from c p /\ sid c = fresh /\ f = S fresh.
+  Proof. exact (bitflip_valid E P). Qed.
+
+  Theorem c06_bitflip_safe : forall pr ts fresh p t,
+    Forall wf ts -> valid_sol ts p -> (forall z, pr = PInt z -> (0 < total_nbits E ts)%nat) ->
+    py_safe (bitflip E P pr ts fresh p t).
+  Proof. exact (bitflip_safe E P). Qed.
+
+  Theorem c06_hux_valid : forall pr ts fresh p1 p2 t cs f t',
+    Forall wf ts -> valid_sol ts p1 -> valid_sol ts p2 ->
+    hux E P pr ts fresh [p1; p2] t = Ok (cs, f, t') -> two_children_ok ts fresh p1 p2 cs f.
+  Proof. exact (hux_valid E P). Qed.
+
+  Theorem c06_hux_safe : forall pr ts fresh p1 p2 t,
+    Forall wf ts -> valid_sol ts p1 -> valid_sol ts p2 -> py_safe (hux E P pr ts fresh [p1; p2] t).
+  Proof. exact (hux_safe E P). Qed.
+
+  (* the `while i == j` redraw loop consumes draws equal to i until one differs *)
+  Theorem c06_redraw_consumes : forall n i fuel j t j' t',
+    redraw fuel n i j t = Ok (j', t') ->
+    j' <> i /\ ((j = j' /\ t = t') \/ (j = i /\ exists m, t = repeat (DIdx i) m ++ DIdx j' :: t')).
+  Proof. exact redraw_consumes. Qed.
+
+  Theorem c06_swap_valid : forall p ts fresh s t c f t',
+    Forall wf ts -> valid_sol ts s -> swap E P p ts fresh s t = Ok (c, f, t') ->
+    valid_sol ts c /\ copied_from c s /\ sid c = fresh /\ f = S fresh.
+  Proof. exact (swap_valid E P). Qed.
+
+  Theorem c06_swap_safe : forall p ts fresh s t,
+    Forall wf ts -> valid_sol ts s -> py_safe (swap E P p ts fresh s t).
+  Proof. exact (swap_safe E P). Qed.
+
+  Theorem c06_insertion_valid : forall p ts fresh s t c f t',
+    Forall wf ts -> valid_sol ts s -> insertion E P p ts fresh s t = Ok (c, f, t') ->
+    valid_sol ts c /\ copied_from c s /\ sid c = fresh /\ f = S fresh.
+  Proof. exact (insertion_valid E P). Qed.
+
+  Theorem c06_insertion_safe : forall p ts fresh s t,
+    Forall wf ts -> valid_sol ts s -> py_safe (insertion E P p ts fresh s t).
+  Proof. exact (insertion_safe E P). Qed.
+
+  Theorem c06_replace_valid : forall p ts fresh s t c f t',
+    Forall wf ts -> valid_sol ts s -> replace E P eqb p ts fresh s t = Ok (c, f, t') ->
+    valid_sol ts c /\ copied_from c s /\ sid c = fresh /\ f = S fresh.
+  Proof. exact (replace_valid E P eqb eqb_spec). Qed.
+
+  Theorem c06_replace_safe : forall p ts fresh s t,
+    Forall wf ts -> valid_sol ts s -> py_safe (replace E P eqb p ts fresh s t).
+  Proof. exact (replace_safe E P eqb eqb_spec). Qed.
+
+  Theorem c06_ssx_valid : forall pr ts fresh p1 p2 t cs f t',
+    Forall wf ts -> valid_sol ts p1 -> valid_sol ts p2 ->
+    ssx E P eqb pr ts fresh [p1; p2] t = Ok (cs, f, t') -> two_children_ok ts fresh p1 p2 cs f.
+  Proof. exact (ssx_valid E P eqb eqb_spec). Qed.
+
+  Theorem c06_ssx_safe : forall pr ts fresh p1 p2 t,
+    Forall wf ts -> valid_sol ts p1 -> valid_sol ts p2 -> py_safe (ssx E P eqb pr ts fresh [p1; p2] t).
+  Proof. exact (ssx_safe E P eqb). Qed.
+
+  (* ---------------------------------------------------------------- real-valued operators:
+     every written variable is clip(candidate) (UM: the uniform(lb,ub) draw), hence valid *)
+  Theorem c06_pm_valid : forall pr ts fresh p t c f t',
+    Forall wf ts -> valid_sol ts p -> pm E P pr ts fresh p t = Ok (c, f, t') ->
+    valid_sol ts c /\ copied_from c p /\ sid c = fresh /\ f = S fresh.
+  Proof. exact (pm_valid E P). Qed.
+
+  Theorem c06_um_valid : forall pr ts fresh p t c f t',
+    Forall wf ts -> valid_sol ts p -> um E P pr ts fresh p t = Ok (c, f, t') ->
+    valid_sol ts c /\ copied_from c p /\ sid c = fresh /\ f = S fresh.
+  Proof. exact (um_valid E P). Qed.
+
+  Theorem c06_uniform_mutation_valid : forall p ts fresh s t c f t',
+    Forall wf ts -> valid_sol ts s -> uniform_mutation E P p ts fresh s t = Ok (c, f, t') ->
+    valid_sol ts c /\ copied_from c s /\ sid c = fresh /\ f = S fresh.
+  Proof. exact (uniform_mutation_valid E P). Qed.
+
+  Theorem c06_non_uniform_mutation_valid : forall p ts fresh s t c f t',
+    Forall wf ts -> valid_sol ts s -> non_uniform_mutation E P p ts fresh s t = Ok (c, f, t') ->
+    valid_sol ts c /\ copied_from c s /\ sid c = fresh /\ f = S fresh.
+  Proof. exact (non_uniform_mutation_valid E P). Qed.
+
+  Theorem c06_sbx_valid : forall pr ts fresh p1 p2 t cs f t',
+    Forall wf ts -> valid_sol ts p1 -> valid_sol ts p2 ->
+    sbx E P pr ts fresh [p1; p2] t = Ok (cs, f, t') -> two_children_ok ts fresh p1 p2 cs f.
+  Proof. exact (sbx_valid E P). Qed.
+
+  Theorem c06_de_valid : forall cr ts fresh ps t cs f t' p0,
+    Forall wf ts -> nth_error ps 0 = Some p0 -> valid_sol ts p0 ->
+    de E P cr ts fresh ps t = Ok (cs, f, t') ->
+    exists c, cs = [c] /\ valid_sol ts c /\ copied_from c p0 /\ sid c = fresh.
+  Proof. exact (de_valid E P). Qed.
+
+  (* PCX / UNDX / SPX: every offspring is valid, marked NOT evaluated, with a parent's payload
+     (holds for the repaired and the pre-fix orthogonalize alike: [skip]) *)
+  Theorem c06_pcx_valid : forall skip ts, Forall wf ts -> forall noff fresh ps t cs f t',
+    pcx_loop E P skip ts noff fresh ps t = Ok (cs, f, t') -> fresh_children E P ts ps cs.
+  Proof. exact (pcx_valid E P). Qed.
+
+  Theorem c06_undx_valid : forall skip ts, Forall wf ts -> forall noff fresh ps t cs f t',
+    undx_loop E P skip ts noff fresh ps t = Ok (cs, f, t') -> fresh_children E P ts ps cs.
+  Proof. exact (undx_valid E P). Qed.
+
+  Theorem c06_spx_valid : forall ts noff fresh ps t cs f t', Forall wf ts ->
+    spx E P noff ts fresh ps t = Ok (cs, f, t') -> fresh_children E P ts ps cs.
+  Proof. exact (spx_valid E P). Qed.
+
+  (* ---------------------------------------------------------------- division safety (exact Q) *)
+  Theorem c06_pcx_division_safe : forall ts noff fresh ps t, (2 <= length ps)%nat ->
+    div_safe (pcx E P noff ts fresh ps t).
+  Proof. exact (pcx_division_safe E P). Qed.
+
+  Theorem c06_undx_division_safe : forall ts noff fresh ps t, (2 <= length ps)%nat ->
+    div_safe (undx E P noff ts fresh ps t).
+  Proof. exact (undx_division_safe E P). Qed.
+
+  (* ---------------------------------------------------------------- combinators, generic over members *)
+  Theorem c06_mutation_member_ok : forall valid m k, mut_ok E P valid m -> op_ok E P valid k (map_mutate E P m).
+  Proof. exact (mutation_member_ok E P). Qed.
+
+  Theorem c06_ga_operator_ok : forall valid k variation m,
+    op_ok E P valid k variation -> mut_ok E P valid m -> op_ok E P valid k (ga_operator E P variation m).
+  Proof. exact (ga_operator_ok E P). Qed.
+
+  Theorem c06_compound_mutation_ok : forall valid ms,
+    Forall (mut_ok E P valid) ms -> mut_ok E P valid (compound_mutation E P ms).
+  Proof. exact (compound_mutation_ok E P). Qed.
+
+  Theorem c06_compound_operator_ok : forall valid vs,
+    Forall (fun v => op_ok E P valid (m_arity v) (m_evolve v)) vs ->
+    forall fresh ps t cs f t', Forall valid ps -> compound_operator E P vs fresh ps t = Ok (cs, f, t') ->
+    Forall valid cs /\ flag_ok E P ps cs.
+  Proof. exact (compound_operator_ok E P). Qed.
+
+  Theorem c06_multimethod_ok : forall valid vs next,
+    Forall (fun v => op_ok E P valid (m_arity v) (m_evolve v)) vs ->
+    forall fresh ps t cs nx f t' v, nth_error vs next = Some v -> length ps = m_arity v -> Forall valid ps ->
+    multimethod E P vs next fresh ps t = Ok (cs, nx, f, t') ->
+    Forall valid cs /\ flag_ok E P ps cs /\ (nx < length vs)%nat.
+  Proof. exact (multimethod_ok E P). Qed.
+
+  (* the shipped operators are such members *)
+  Theorem c06_mutation_of_member : forall step ts, step_valid E step -> Forall wf ts ->
+    mut_ok E P (valid_sol ts) (mutation_of E P step ts).
+  Proof. exact (mutation_of_mut_ok E P). Qed.
+
+  Theorem c06_crossover_of_member : forall step ts, xstep_valid E step -> Forall wf ts ->
+    op_ok E P (valid_sol ts) 2 (crossover_of E P step ts).
+  Proof. exact (crossover_of_op_ok E P). Qed.
+
+  Theorem c06_guarded_crossover_of_member : forall pr step ts, xstep_valid E step -> Forall wf ts ->
+    op_ok E P (valid_sol ts) 2 (guarded_crossover_of E P pr step ts).
+  Proof. exact (guarded_crossover_of_op_ok E P). Qed.
+
+  (* ---------------------------------------------------------------- symmetry *)
+  Theorem c06_hux_symmetric : forall pr ts fresh p1 p2 t cs f t',
+    Forall wf ts -> valid_sol ts p1 -> valid_sol ts p2 ->
+    hux E P pr ts fresh [p1; p2] t = Ok (cs, f, t') ->
+    exists ds, hux E P pr ts fresh [p2; p1] t = Ok (ds, f, t') /\ exchanged E P cs ds.
+  Proof. exact (hux_symmetric E P). Qed.
+
+  Theorem c06_ssx_symmetric : forall pr ts fresh p1 p2 t cs f t',
+    Forall wf ts -> valid_sol ts p1 -> valid_sol ts p2 ->
+    ssx E P eqb pr ts fresh [p1; p2] t = Ok (cs, f, t') ->
+    exists ds, ssx E P eqb pr ts fresh [p2; p1] t = Ok (ds, f, t') /\ exchanged E P cs ds.
+  Proof. exact (ssx_symmetric E P eqb). Qed.
+
+  Theorem c06_pmx_symmetric : forall pr ts fresh p1 p2 t cs f t',
+    Forall wf ts -> valid_sol ts p1 -> valid_sol ts p2 ->
+    pmx E P eqb pr ts fresh [p1; p2] t = Ok (cs, f, t') ->
+    exists ds, pmx E P eqb pr ts fresh [p2; p1] t = Ok (ds, f, t') /\ exchanged E P cs ds.
+  Proof. exact (pmx_symmetric E P eqb). Qed.
+
+  (* exchanged offspring lists have the same multiset of offspring values *)
+  Theorem c06_exchanged_multiset : forall cs ds, exchanged E P cs ds -> Permutation (map vars cs) (map vars ds).
+  Proof. exact (exchanged_multiset E P). Qed.
+
+  Theorem c06_sbx_symmetric_1var : forall pr lb ub fresh p1 p2 x1 x2 t cs f t',
+    vars p1 = [VReal (FX (Fin x1))] -> vars p2 = [VReal (FX (Fin x2))] ->
+    sbx E P pr [TReal lb ub] fresh [p1; p2] t = Ok (cs, f, t') ->
+    exists ds, sbx E P pr [TReal lb ub] fresh [p2; p1] t = Ok (ds, f, t') /\
+               Permutation (map vars cs) (map vars ds).
+  Proof. exact (sbx_symmetric_1var E P). Qed.
+End C06.
+
+(* ------------------------------------------------------------------ witnesses about the code BEFORE the repairs
+   (kept so that a regression of a fix is also a failing theorem-level statement) *)
+Theorem c06_pcx_old_divides_by_zero :
+  pcx_old Z unit 1 ex_types 3%nat [ex_sol 0 (1#4); ex_sol 1 (3#4); ex_sol 2 (1#2)] [DIdx 2] = Err EZeroDiv.
+Proof. exact pcx_old_divides_by_zero. Qed.
+
+Theorem c06_undx_old_divides_by_zero :
+  undx_old Z unit 1 ex_types2 2%nat [ex_sol2 0 (1#2) (1#4); ex_sol2 1 (1#2) (1#4)]
+    [ex_val 0; DGauss (FZ 1); DGauss (FZ 0); ex_val 1; DGauss (FZ 0); DGauss (FZ 1)] = Err EZeroDiv.
+Proof. exact undx_old_divides_by_zero. Qed.
+
+Theorem c06_sbx_old_asymmetric :
+  map vars (match sbx_old Z unit (FZ 1) ex_types 2%nat [ex_sol 0 (4#5); ex_sol 1 (1#5)] sbx_tape with Ok (cs, _, _) => cs | _ => [] end)
+    = [[VReal (FX (Fin (4#5)))]; [VReal (FX (Fin (1#5)))]]
+  /\ map vars (match sbx_old Z unit (FZ 1) ex_types 2%nat [ex_sol 0 (1#5); ex_sol 1 (4#5)] sbx_tape with Ok (cs, _, _) => cs | _ => [] end)
+    = [[VReal (FX (Fin (3#10)))]; [VReal (FX (Fin (6#10)))]].
+Proof. exact sbx_old_asymmetric. Qed.
